@@ -10,11 +10,17 @@ EXTRA_OBJS = [["o5", "object"], ["o6", "t1"], ["o7", "t3"]]
 
 NUM_FORMS = [("3", 3, 1), ("3.0", 3, 1), ("0", 0, 1), ("-2.5", -5, 2), ("0.25", 1, 4), ("10", 10, 1), ("1e1", 10, 1),
              ("2.5e-1", 1, 4), ("5E0", 5, 1), ("-0.125", -1, 8), ("7.50", 15, 2), ("100", 100, 1), ("-1", -1, 1),
-             ("0.0625", 1, 16), ("12.75", 51, 4)]
+             ("0.0625", 1, 16), ("12.75", 51, 4),
+             # more than six significant digits
+             ("1234567", 1234567, 1), ("12.345678", 6172839, 500000), ("2500000.75", 10000003, 4), ("98765.4321", 987654321, 10000),
+             ("-100000.5", -200001, 2)]
 
 
-def num(rng):
-    txt, n, d = rng.choice(NUM_FORMS)
+N_SHORT = 15     # the first forms have at most 4 decimals: goal constants are printed with NUMERIC_PRECISION decimals
+
+
+def num(rng, short=False):
+    txt, n, d = rng.choice(NUM_FORMS[:N_SHORT] if short else NUM_FORMS)
     return {"t": "n", "v": [n, d], "txt": txt}
 
 
@@ -69,7 +75,7 @@ def gen_problem(rng, cid, repeats=False, alt_types=False):
         if rng.random() < 0.4:
             f2, a2 = rng.choice(fls)
             left = L(S(rng.choice(["+", "-", "*"])), left, L(S(f2), *[S(x) for x in a2]))
-        gcmps.append(L(S(rng.choice(["<", "<=", "=", ">=", ">"])), left, num(rng)))
+        gcmps.append(L(S(rng.choice(["<", "<=", "=", ">=", ">"])), left, num(rng, short=True)))
     case = {"facts": facts, "fluents": [[f, a, num(rng)] for f, a in fluents], "glits": glits, "gcmps": gcmps,
             "objs": objs, "domain": "dom", "name": f"prob{cid}"}
     kind = "valid"
